@@ -55,6 +55,8 @@ def dispatch (line : String) : String :=
   | "c03chain" :: args => C03.handleChain args
   | "c03cls" :: args => C03.handleCls args
   | "c04seq" :: args => C04.handle args
+  | "c03big" :: args => C03.handleBig args
+  | "c03sub" :: args => C03.handleSub args
   | "planar" :: args => C11.handlePlanar args
   | "minorcert" :: args => C11.handleCert args
   | "pknown" :: args => C11.handleKnown args
